@@ -226,12 +226,27 @@ def traversal_returns_leaf_path(ft, k):
         path = v.elts[k].id
         # cursor = a Name N such that path was initialised as [N] and every assignment to N is followed by path.append(<same>)
         pdefs = ft.defs_of(path)
-        if len(pdefs) != 1 or pdefs[0][1][0] != "assign" or not isinstance(pdefs[0][1][1], ast.List) or len(pdefs[0][1][1].elts) != 1 \
-                or not isinstance(pdefs[0][1][1].elts[0], ast.Name):
+        if len(pdefs) != 1 or pdefs[0][1][0] != "assign" or not isinstance(pdefs[0][1][1], ast.List) or len(pdefs[0][1][1].elts) != 1:
             return False, "path list is not initialised as [cursor]"
-        cur = pdefs[0][1][1].elts[0].id
+        first = pdefs[0][1][1].elts[0]
         pinit = pdefs[0][0]
+        root_start = None
+        if isinstance(first, ast.Name):
+            cur = first.id
+        elif norm_src(first) in ("self.partition.get_root()", "self.partition.root"):
+            # [root] with the cursor initialised by the same (constant) root expression next to it: the cursor is the variable
+            # returned beside the path whose only definition outside the loop is that expression
+            cands = [e.id for e in v.elts if isinstance(e, ast.Name) and e.id != path and
+                     any(r[0] == "assign" and norm_src(r[1]) == norm_src(first) for n, r in ft.defs_of(e.id))]
+            if len(cands) != 1:
+                return False, "path list is not initialised as [cursor]"
+            cur = cands[0]
+            root_start = norm_src(first)
+        else:
+            return False, "path list is not initialised as [cursor]"
         cdefs = ft.defs_of(cur)
+        if root_start is not None:
+            cdefs = [(n, r) for n, r in cdefs if not (r[0] == "assign" and norm_src(r[1]) == root_start)]
         # all mutations of path
         muts = []
         for n in cfg.nodes:
